@@ -318,6 +318,9 @@ func searchIndex(p *thrift.BinaryProtocol, id int, isList bool) (tt thrift.Type,
 	if err != nil {
 		return 0, start, errNode(meta.ErrRead, "", err)
 	}
+	if id < 0 {
+		return 0, start, errNode(meta.ErrInvalidParam, "index is negative", nil)
+	}
 	if id >= size {
 		if isList {
 			return thrift.LIST, p.Read, errNotFound
@@ -519,6 +522,10 @@ func (self Node) Index(i int) (v Node) {
 	it := self.iterElems()
 	if it.Err != nil {
 		return errNode(meta.ErrRead, "", it.Err)
+	}
+	if i < 0 {
+		v = errNode(meta.ErrInvalidParam, fmt.Sprintf("index %d is negative", i), nil)
+		goto ret
 	}
 	if i >= it.size {
 		v = errNode(meta.ErrInvalidParam, fmt.Sprintf("index %d exceeds list/set bound", i), nil)
